@@ -63,7 +63,7 @@ def predicate_to_koreo_result(
             case {"assert": _, "retry": {"message": message, "delay": delay}}:
                 try:
                     delay_seconds = int(delay)
-                    if isinstance(delay, float) and delay_seconds != delay:
+                    if isinstance(delay, float) and float(delay) != delay_seconds:
                         raise ValueError(f"{delay} is not a whole number")
                 except (TypeError, ValueError, OverflowError) as err:
                     return result.PermFail(
